@@ -75,7 +75,7 @@ func c14Cfgs(tier string) []*histCfg {
 	var cfgs []*histCfg
 	depth := 3
 	if tier == "thorough" {
-		depth = 4
+		depth = 5
 	}
 	for _, role := range []string{"acc", "ini"} {
 		role := role
